@@ -24,6 +24,14 @@ import (
 	internalfees "github.com/ava-labs/hypersdk/internal/fees"
 )
 
+// Transactions that go through code reading the clock (builder, pre-executor) carry a fixed far-future expiry and the
+// rules a validity window that admits it both under the engine's frozen clock and in real time, so that the encoded
+// transaction (and hence its size) is the same in the engine and in the native replay.
+const (
+	c12Expiry = int64(4_000_000_000_000) // year 2096, a whole second
+	c12Window = int64(1) << 61
+)
+
 func c12Processor() *Processor {
 	// metrics that are never registered (NewMetrics registers with a prometheus registry, which the engine treats as opaque)
 	c := prometheus.NewCounter(prometheus.CounterOpts{Name: "verif"})
@@ -211,8 +219,9 @@ func VerifC12Build() {
 	r.maxBlock[fees.Bandwidth], r.maxBlock[fees.Compute] = verifU64("maxBandwidth"), verifU64("maxCompute")
 	r.target[fees.Compute] = verifU64("targetCompute")
 	verifAssume(r.target[fees.Compute] > 0)
+	r.window = c12Window
 	now := time.Now().UnixMilli()
-	expiry := now - now%1000 + 60000
+	expiry := c12Expiry
 	parentTs := now - 5000
 
 	view := &c12View{m: map[string][]byte{}}
